@@ -43,7 +43,7 @@ def main():
         label_pos = int(rng.integers(0, len(cols) + 1))
         cols.insert(label_pos, 'label')
         pairwise = bool(rng.integers(0, 2))
-        heuristic = str(rng.choice(['MI-numba-3mr'] if mr3 else ['MI-numba-randomized', 'MI', 'Constant', 'max-value-coverage']))
+        heuristic = str(rng.choice(['MI-numba-3mr'] if mr3 else ['MI-numba-randomized', 'MI', 'Constant', 'max-value-coverage', 'correlation-Pearson']))
         cap = int(rng.choice([0, 1, 2, 3, 5, 10 ** 6]))
         args = make_args(heuristic=heuristic, target_ranking_only='False' if pairwise else 'True',
                          combination_number_upper_bound=cap)
